@@ -346,15 +346,18 @@ def _embed_job(args):
     solo_progs = []
     joint = []
     # country codes of the embedded economies: plain ones, and codes that extend one another after an underscore
-    codes = rnd.choice([['EA', 'EB', 'EC'], ['EA', 'EA_2', 'EB'], ['Z', 'Z_9', 'K9'], ['NA', 'NA_B', 'NA_B_2']])
+    codes = rnd.choice([['EA', 'EB', 'EC'], ['EA', 'EA_2', 'EB'], ['Z', 'Z_9', 'K9'], ['NA', 'NA_B', 'NA_B_2'],
+                        ['Ea', 'EA', 'eA']])      # ... and codes that differ in letter case only
+    # explicit currencies: distinct strings, in some jobs distinct only in letter case
+    curs = rnd.choice([None, None, ['Kr', 'KR', 'kr']])
     for i, (bp, decl) in enumerate(members):
         prog = modelcheck.program_for(bp, decl, seed, with_ic=False, region_mode='always', api_routes=False)
         ccs = [c['code'] for c in bp['countries']]
         if len(ccs) == 1:
             # a single-country economy may leave its currency to the default (a currency named after the country)
-            mapping = {ccs[0]: (codes[i], ('CUR' + codes[i]) if rnd.random() < 0.5 else None)}
+            mapping = {ccs[0]: (codes[i], (curs[i] if curs else 'CUR' + codes[i]) if rnd.random() < 0.5 else None)}
         else:
-            mapping = {cc: (codes[i] + cc, 'CUR' + codes[i]) for cc in ccs}
+            mapping = {cc: (codes[i] + cc, curs[i] if curs else 'CUR' + codes[i]) for cc in ccs}
         p = recountry(prog, mapping)
         solo_progs.append(p + [{'op': 'MaxTime', 'value': T}])
         joint.extend(p)
